@@ -2,6 +2,7 @@ package rules
 
 import (
 	"fmt"
+	"go/types"
 	"math/bits"
 	"os"
 	"sort"
@@ -338,7 +339,7 @@ func joinAbs(a, b AbsVal, wl int) AbsVal {
 	switch a.k {
 	case vInt:
 		u := intVal(append(append([]int64{}, a.ints...), b.ints...)...)
-		if len(u.ints) > 24 || (widen && len(u.ints) > 12) {
+		if len(u.ints) > 64 || (widen && len(u.ints) > 48) {
 			return top
 		}
 		return u
@@ -519,6 +520,7 @@ type State struct {
 	shifts     int     // number of Shift/Skip executed on this path (capped)
 	skips      int
 	havoc      bool                    // cursor state was invalidated by an opaque call
+	coarse     bool                    // parser-level analysis: only booleans partition the states
 	errMsg     string                  // message of the error assigned on this path (for obligation keys)
 	errSet     int                     // lexer's own err field on this path: 0 unknown, 1 assigned non-nil, 2 known nil
 	loopDisp   map[*ssa.BasicBlock]int // lower bound of net displacement since the loop header was last passed
@@ -853,6 +855,13 @@ func (s *State) havocCursor() {
 	}
 }
 
+func coarseKeys(s *State) bool { return s.coarse }
+
+func isBoolValue(v ssa.Value) bool {
+	b, ok := v.Type().Underlying().(*types.Basic)
+	return ok && b.Kind() == types.Bool
+}
+
 // partition key: abstract constants of phi / call-result / parameter values of
 // bool or enum type, and of the heap fields. States with equal keys are joined.
 func (s *State) key(interesting []ssa.Value) string {
@@ -864,7 +873,7 @@ func (s *State) key(interesting []ssa.Value) string {
 		}
 		switch av.k {
 		case vInt:
-			if len(av.ints) <= 2 {
+			if len(av.ints) <= 2 && (!coarseKeys(s) || isBoolValue(v)) {
 				fmt.Fprintf(&sb, "%s=%v;", v.Name(), av.ints)
 			}
 		case vCmp, vErrAt, vTable:
@@ -874,6 +883,9 @@ func (s *State) key(interesting []ssa.Value) string {
 	var hk []string
 	for k, av := range s.heap {
 		if av.k == vInt && len(av.ints) <= 2 {
+			if coarseKeys(s) && len(av.ints) == 1 && (av.ints[0] < 0 || av.ints[0] > 1) {
+				continue // enum-valued fields do not partition in coarse mode
+			}
 			hk = append(hk, fmt.Sprintf("%s=%v", k, av.ints))
 		}
 	}
